@@ -7,7 +7,8 @@
   Model: `Rfc2822.parse_from_rfc2822` = `DateTime::parse_from_rfc2822`, `Rfc2822.to_rfc2822` =
   `DateTime::to_rfc2822` (Model/Rfc2822.lean over Model/Parse, Scan, ParsedResolve, Format).
 -/
-import Chrono.Proofs.Rfc2822WriteL
+import Chrono.Proofs.Rfc2822ScanSoundL
+import Chrono.Proofs.ParsedZonedL
 import Chrono.Extracted.Rfc2822
 
 namespace Chrono.Props.C11
@@ -47,6 +48,81 @@ theorem denotation_unique (f : Fields) (z z' : Zoned) (h : Denotes f z) (h' : De
   cases z; cases z'
   simp only [] at hu a1 b1
   rw [hu, a1, b1]
+
+/-- **reader_sound** (soundness).  Whatever `parse_from_rfc2822` accepts is a string of the RFC 2822
+date-time grammar of the specification, its fields are valid (existing date in range, day-name — if
+any — the weekday of the date, time fields and offset in range, UTC reading in range), and the
+returned value is the one those fields denote.  With `reader_accepts_spec` and
+`denotation_unique`: `parse_from_rfc2822 s = Ok z` exactly when `s` spells valid fields denoting
+`z`; everything else is `Err` (`reader_total`: never a panic). -/
+theorem reader_sound (s : List Nat) (z : Zoned) (h : Rfc2822.parse_from_rfc2822 s = .ok (.ok z)) :
+    ∃ f, Rfc2822 s f ∧ Valid f ∧ Denotes f z := by
+  unfold Rfc2822.parse_from_rfc2822 at h
+  cases hp : Parse.parse Parsed.new s Rfc2822.ITEMS with
+  | error e => rw [hp] at h; cases h
+  | ok p =>
+    rw [hp] at h
+    simp only [] at h
+    have hscan : Parse.parse_rfc2822 Parsed.new s = .ok (p, []) := by
+      unfold Parse.parse Rfc2822.ITEMS Parse.parse_internal at hp
+      simp only [] at hp
+      cases hr : Parse.parse_rfc2822 Parsed.new s with
+      | error e => rw [hr] at hp; cases hp
+      | ok r =>
+        obtain ⟨p', s'⟩ := r
+        rw [hr] at hp
+        simp only [Parse.parse_internal] at hp
+        cases s' with
+        | nil => injection hp with hp; rw [hp]
+        | cons _ _ => cases hp
+    obtain ⟨f, hf, hr, hm, hy, rfl⟩ := scan_sound s p hscan
+    have hin := inType_parsedOf f hr hm (by omega)
+    obtain ⟨hv, hd⟩ := resolve_sound f hin z h
+    exact ⟨f, hf, hv, hd⟩
+
+/-- **reader_total.**  For every byte string the reader returns `Ok` or `Err` — it cannot panic
+(scanning is total by construction; field resolution of the scanned record by C14's `to_datetime`
+theorem). -/
+theorem reader_total (s : List Nat) : ∃ r, Rfc2822.parse_from_rfc2822 s = .ok r := by
+  unfold Rfc2822.parse_from_rfc2822
+  cases hp : Parse.parse Parsed.new s Rfc2822.ITEMS with
+  | error e => exact ⟨_, rfl⟩
+  | ok p =>
+    simp only []
+    have hscan : Parse.parse_rfc2822 Parsed.new s = .ok (p, []) := by
+      unfold Parse.parse Rfc2822.ITEMS Parse.parse_internal at hp
+      simp only [] at hp
+      cases hr : Parse.parse_rfc2822 Parsed.new s with
+      | error e => rw [hr] at hp; cases hp
+      | ok r =>
+        obtain ⟨p', s'⟩ := r
+        rw [hr] at hp
+        simp only [Parse.parse_internal] at hp
+        cases s' with
+        | nil => injection hp with hp; rw [hp]
+        | cons _ _ => cases hp
+    obtain ⟨f, _, hr, hm, hy, rfl⟩ := scan_sound s p hscan
+    obtain ⟨r, hr', _⟩ := Chrono.Proofs.ParsedRes.to_datetime_spec _ (inType_parsedOf f hr hm (by omega))
+    exact ⟨r, hr'⟩
+
+/-- acceptance is exactly validity on the grammar: a string spelling fields `f` (inside the setter
+ranges) is accepted iff `f` is valid -/
+theorem accepts_iff_valid (s : List Nat) (f : Fields) (h : Rfc2822 s f) (hr : SetterRanges f) :
+    (∃ z, Rfc2822.parse_from_rfc2822 s = .ok (.ok z)) ↔ Valid f := by
+  constructor
+  · rintro ⟨z, hz⟩
+    have hm : f.month ≤ 12 ∧ 0 ≤ f.year := by
+      obtain ⟨_, _, _, _, _, _, _, yy, _, _, _, _, _, _, _, _, _, _, _, _, _, _, _, _, hmn, _, _, _, hyv, _⟩ := h
+      obtain ⟨i, hi, _, hmi⟩ := hmn
+      have := yearOf_ge yy
+      omega
+    have hin := inType_parsedOf f hr hm.1 (by omega)
+    unfold Rfc2822.parse_from_rfc2822 at hz
+    rw [scanner_complete s f h hr] at hz
+    exact (resolve_sound f hin z hz).1
+  · intro hv
+    obtain ⟨z, hz, _⟩ := reader_accepts_spec s f h hv
+    exact ⟨z, hz⟩
 
 /-! ## the writer's standard form and the round trip -/
 
